@@ -281,3 +281,16 @@ PROPS["C14"]["claim"] = PROPS["C14"]["explanation"] = PROPS["C14"]["explanation"
     "(lemma.C14.hidden_items_offer_no_candidates), so hidden items are never offered; completion mode never starts or ends in the middle of a run (trait invariant).")
 PROPS["C20"]["claim"] = PROPS["C20"]["explanation"] = PROPS["C20"]["explanation"] + (
     " The completion hooks themselves are no longer assumed: their real bodies are proved to be inert when `comp` is None.")
+
+# ---- meta() of the primitive items under contract; docgen configuration in the thorough tier of C12 / C20
+PROPS["C12"]["thorough_docgen"] = True
+PROPS["C20"]["thorough_docgen"] = True
+PROPS["C12"]["claim"] = PROPS["C12"]["explanation"] = PROPS["C12"]["explanation"] + (
+    " What a flag / argument shows about itself is tied to what it accepts: ParseFlag::meta and ParseArgument::meta (real bodies, with Item::required and Meta::from) show the item under "
+    "first_names(named), in optional brackets iff a default exists, nothing for an item without a name; lemma.C12.shown_name_is_accepted: those names satisfy the matcher (matches_spec) that "
+    "take_flag / take_arg are proved to use - every name shown for a primitive item is accepted by it.")
+PROPS["C12"]["not_covered"] = [x for x in PROPS["C12"]["not_covered"] if not x.startswith("that every Parser::meta")] + ["Parser::meta of the wrapper combinators and of commands / positionals (not under contract)"]
+PROPS["C20"]["claim"] = PROPS["C20"]["explanation"] = PROPS["C20"]["explanation"] + (
+    " In the thorough tier every unit is verified a third time with feature docgen (no parsing unit has a docgen gate; the gated HelpItem::Command field is handled by a cfg'd spec).")
+PROPS["C14"]["claim"] = PROPS["C14"]["explanation"] = PROPS["C14"]["explanation"] + (
+    " ArgScanner::done / Complete::new (real bodies): completion mode exists iff the completion marker was seen, and starts with no candidates.")
